@@ -42,6 +42,10 @@ pub fn feasible(opts: &mut BasicOpts, sc_knobs: (&crate::cfgs::TKnobs, &crate::c
 fn run_basic(ch: Chooser, ctx: &RunCtx, mut opts: BasicOpts) -> RunOut {
     let mut w = World::from_ctx(ch, ctx);
     opts.op_kinds = vec![0, 1, 2, 3, 4, 5, 6, 7];
+    // some readers come back to a stream only some milliseconds after they were notified:
+    // retransmitted, duplicated and reordered fragments pile up in the receive buffer
+    opts.wl.lazy = 250;
+    opts.wl.unordered = 300;
     let mut sc = Basic::build(&mut w, opts);
     w.run(&mut sc);
     // liveness (a finished stream that is never delivered) is judged by C02; C01 judges every
